@@ -499,3 +499,26 @@ package rlwe
 //@ noescape Encryptor.Encrypt pt
 //@   property C09
 
+
+// Read back in the order written (C08): see /verif/cmd/lvc/fieldordercheck.go
+//@ fieldorder Element
+//@   property C08
+//
+//@ fieldorder EvaluationKey
+//@   property C08
+//
+//@ fieldorder GadgetCiphertext
+//@   property C08
+//
+//@ fieldorder GaloisKey
+//@   property C08
+//
+//@ fieldorder MemEvaluationKeySet
+//@   property C08
+//
+//@ fieldorder PublicKey
+//@   property C08
+//
+//@ fieldorder SecretKey
+//@   property C08
+//
